@@ -65,6 +65,8 @@ func main() {
 		cmdSweep(os.Args[2:])
 	case "check":
 		cmdCheck(os.Args[2:])
+	case "emit":
+		cmdEmit(os.Args[2:])
 	case "crashcorpus":
 		e := newEngine()
 		outs := runCrashCorpus(e)
